@@ -1848,12 +1848,29 @@ def anchor_set(prog: Program) -> RuleResult:
                         other |= names
         rems = anchor_calls(body, ("remove", "discard"))
         construct = f"{LAYOUT}:_compute_branches/{kind}/anchor-removed"
-        bad = [c for c in rems if not (c.args and dotted(c.args[0]) in same_species)]
+        brought_at: Dict[str, int] = {}
+        for st in body:
+            for a in ast.walk(st):
+                if isinstance(a, ast.Assign) and isinstance(a.value, ast.Call) and (dotted(a.value.func) or "").endswith("_add_losses"):
+                    for t in a.targets:
+                        if isinstance(t, ast.Name):
+                            brought_at[t.id] = max(brought_at.get(t.id, 0), a.lineno)
+        own_states = {
+            t.id for st in ast.walk(fn) if isinstance(st, (ast.Assign, ast.AnnAssign))
+            for t in (st.targets if isinstance(st, ast.Assign) else [st.target]) if isinstance(t, ast.Name)
+            and any(isinstance(u, ast.Assign) and isinstance(u.targets[0], ast.Subscript) and dotted(u.targets[0].slice) == sp and dotted(u.value) == t.id for u in ast.walk(fn))
+        }
+        bad = [
+            c for c in rems
+            if not (c.args and dotted(c.args[0]) in same_species)
+            or c.lineno < brought_at.get(dotted(c.args[0]) or "", 0)
+            or (own_states and dotted(c.func.value.value) not in own_states)
+        ]
         if bad:
             what = dotted(bad[0].args[0]) if bad[0].args else "?"
             res.fail(
                 construct,
-                f"the {kind} handler removes `{what}` from the anchors of `{sp}`, but `{what}` is not a child it has just brought into that species "
+                f"the {kind} handler removes `{what}` from `{short(bad[0].func.value, 40)}`, but at that point `{what}` is not a child it has just brought into `{sp}` "
                 f"(brought: {sorted(same_species) or 'none'}): the node lives in another species (KeyError) or loses the anchor its parent links to",
                 mod,
                 bad[0],
